@@ -136,6 +136,9 @@ Fixpoint zlookup (t : list (Z * string)) (v : Z) : string :=
   | (k, s) :: r => if k =? v then s else zlookup r v
   end.
 
+(* builder.formatValue: the caller's FormatValue result, escaped (repair of F29) *)
+Definition fmt_value (t : list (Z * string)) (v : Z) : string := escape_for_dot (zlookup t v).
+
 (* graph.go NodeInfo.NameComponents *)
 Definition name_tail (name file obj : string) (line col : Z) : list string :=
   if negb (line =? 0) then
@@ -156,11 +159,13 @@ Definition s_ellipsis : string := B [226; 128; 166].
 (* the function name as multilinePrintableName rewrites it *)
 Definition ml_name (short : string) : string :=
   replace_all "." s_bs_n (replace_all "[...]" ("[" ++ s_ellipsis ++ "]") (replace_all "::" s_bs_n (escape_for_dot short))).
-(* F26: the file (and the binary name in brackets) go into the label as they are *)
-Definition ml_file (file : string) : string := if String.eqb file "" then "" else path_base file.
+(* the file base name and the binary base name are escaped as well (repair of F30);
+   NameComponents applies filepath.Base to the binary name once more *)
+Definition ml_file (file : string) : string := if String.eqb file "" then "" else escape_for_dot (path_base file).
+Definition ml_obj (obj : string) : string := if String.eqb obj "" then "" else escape_for_dot (path_base obj).
 
 Definition multiline_printable_name (i : ninfo) : string :=
-  concat_with s_bs_n (name_components (ml_name (ni_short i)) (ml_file (ni_file i)) (ni_obj i)
+  concat_with s_bs_n (name_components (ml_name (ni_short i)) (ml_file (ni_file i)) (ml_obj (ni_obj i))
                                       (ni_addr i) (ni_line i) (ni_col i)) ++ s_bs_n.
 
 (* ---------------- emitters ---------------- *)
@@ -188,11 +193,11 @@ Definition node_label (g : dgraph) (n : dnode) : string * string (* label, cumVa
             | Some a => match na_fmt a with Some f => f | None => multiline_printable_name (dn_info n) end
             | None => multiline_printable_name (dn_info n)
             end in
-  let fvs := zlookup (dg_fv g) flat in
+  let fvs := fmt_value (dg_fv g) flat in
   let l1 := if flat =? 0 then l0 ++ "0" else l0 ++ fvs ++ " (" ++ zlookup (dg_pct g) flat ++ ")" in
   if cum =? flat then (l1, fvs)
   else
-    let cvs := zlookup (dg_fv g) cum in
+    let cvs := fmt_value (dg_fv g) cum in
     (l1 ++ (if flat =? 0 then " " else s_bs_n) ++ "of " ++ cvs ++ " (" ++ zlookup (dg_pct g) cum ++ ")", cvs).
 
 Definition node_extras (n : dnode) : string :=
@@ -228,7 +233,7 @@ Fixpoint emit_numeric (g : dgraph) (flat_tags : bool) (source : string) (nts : l
       let '(w, attr) := if flat_tags || (nt_flat t =? nt_cum t) then (nt_flat t, "")
                         else (nt_cum t, " style=" ++ q "dotted") in
       (if w =? 0 then ""
-       else emit_nodelet source ("N" ++ source ++ "_" ++ zs j) (nt_name t) (zlookup (dg_fv g) w) attr)
+       else emit_nodelet source ("N" ++ source ++ "_" ++ zs j) (nt_name t) (fmt_value (dg_fv g) w) attr)
       ++ emit_numeric g flat_tags source r (j + 1)
   end.
 
@@ -240,7 +245,7 @@ Fixpoint emit_tags (g : dgraph) (flat_tags : bool) (id : Z) (ts : list ltag) (i 
       (if w =? 0 then ""
        else
          let nm := "N" ++ zs id ++ "_" ++ zs i in
-         emit_nodelet ("N" ++ zs id) nm (lt_name t) (zlookup (dg_fv g) w) ""
+         emit_nodelet ("N" ++ zs id) nm (lt_name t) (fmt_value (dg_fv g) w) ""
          ++ match lt_num t with Some nts => emit_numeric g flat_tags nm nts 0 | None => "" end)
       ++ emit_tags g flat_tags id r (i + 1)
   end.
@@ -267,10 +272,10 @@ Definition edge_mid (g : dgraph) (e : dedge) : string :=
 
 Definition edge_tooltip (g : dgraph) (e : dedge) : string :=
   escape_for_dot (printable_name (de_src e)) ++ " " ++ (if de_residual e then "..." else "->") ++ " " ++
-  escape_for_dot (printable_name (de_dst e)) ++ " (" ++ zlookup (dg_fv g) (de_w e) ++ ")".
+  escape_for_dot (printable_name (de_dst e)) ++ " (" ++ fmt_value (dg_fv g) (de_w e) ++ ")".
 
 Definition emit_edge (g : dgraph) (e : dedge) (has_nodelets : bool) : string :=
-  let w := zlookup (dg_fv g) (de_w e) in
+  let w := fmt_value (dg_fv g) (de_w e) in
   "N" ++ zs (de_from e) ++ " -> N" ++ zs (de_to e) ++
   " [label=" ++ q (" " ++ w ++ (if de_inline e then s_bs_n ++ " (inline)" else "")) ++
   edge_mid g e ++
@@ -301,7 +306,3 @@ Definition compose_dot (g : dgraph) : string :=
   | [] => ""
   | _ => emit_nodes g (dg_nodes g) 1 ++ emit_edges g
   end ++ "}" ++ s_nl.
-
-(* ---------------- raw holes (what is written between quotes without escaping) ---------------- *)
-(* F25: FormatValue results are written verbatim; with the default options they end in the
-   profile's sample unit.  F26: see ml_file.  These predicates are the class predicates. *)
